@@ -200,6 +200,33 @@ def bounded(b):
                 arr = roll.toarray()
                 got = {(int(r), int(c)): int(arr[r, c]) for r, c in zip(*np.nonzero(arr))}
                 b.case("roll/every_time_unit_named_or_inferred", arr.shape == (M, N) and got == cells, case, "shape %r (expected %r) or cells differ" % (arr.shape, (M, N)))
+    # object inputs: a Performance shows the notes of ALL its performed parts; a Score in 'div' units shows every part on the common (lcm) grid
+    import partitura.performance as pf
+    from gen import scores as G
+    pn = [[(60, 0.0, 1.0, 64), (64, 0.5, 1.0, 70)], [(72, 1.0, 1.5, 100), (48, 2.5, 0.5, 30)]]
+    perf = pf.Performance([pf.PerformedPart([dict(id="p%dn%d" % (i, k), midi_pitch=p, note_on=o, note_off=o + d, velocity=v, track=i, channel=0) for k, (p, o, d, v) in enumerate(part)], id="P%d" % i)
+                           for i, part in enumerate(pn)])
+    case = {"input": "Performance with two performed parts"}
+    ok, roll = b.guard("roll/no_exception", case, lambda: compute_pianoroll(perf, time_unit="sec", time_div=4, remove_silence=False))
+    if ok:
+        M, N, cells, _ = raster([n for part in pn for n in part], 4, False, False, -1, 0, False, False, None, False, True)
+        arr = roll.toarray()
+        got = {(int(r), int(c)): int(arr[r, c]) for r, c in zip(*np.nonzero(arr))}
+        b.case("roll/object_inputs_show_every_part", arr.shape == (M, N) and got == cells, case, "shape %r (expected %r) or cells differ: the notes of some part are missing" % (arr.shape, (M, N)))
+    for divs in ((2, 3), (4, 6), (4, 6, 1)):
+        L = 1
+        for d_ in divs:
+            L = L * d_ // __import__("math").gcd(L, d_)
+        parts = [G.build_part("P%d" % i, d_, notes=[("q%d_%d" % (i, k), k * d_, d_ * (1 + k % 2), "CEG"[k % 3], None, 3 + i, 1, 1) for k in range(3)]) for i, d_ in enumerate(divs)]
+        sco = G.simple_score(parts)
+        case = {"input": "Score", "divisions_of_the_parts": list(divs), "time_unit": "div"}
+        ok, roll = b.guard("roll/no_exception", case, lambda: compute_pianoroll(sco, time_unit="div", time_div=1, remove_silence=False))
+        if ok:
+            notes = [(n.midi_pitch, n.start.t * L // d_, (n.end.t - n.start.t) * L // d_, 1) for p_, d_ in zip(parts, divs) for n in p_.notes]
+            M, N, cells, _ = raster(notes, 1, False, False, -1, 0, False, False, None, False, False)
+            arr = roll.toarray()
+            got = {(int(r), int(c)): int(arr[r, c]) for r, c in zip(*np.nonzero(arr))}
+            b.case("roll/object_inputs_show_every_part", arr.shape == (M, N) and got == cells, case, "shape %r, on the common grid of %d divisions per quarter the notes span %r" % (arr.shape, L, (M, N)))
     # drum channel filtering
     for ch in ([0, 9, 1], [9, 9, 0], [10, 9, 15], [8, 11, 9]):
         notes = [(60, 0.0, 1.0, 64), (36, 0.0, 1.0, 100), (62, 1.0, 1.0, 70)]
